@@ -130,6 +130,10 @@ func addDecimals(receiver object.Object, objType object.ObjectType, args ...obje
 		}
 
 		decimals = int(decimalArg.Value)
+
+		if decimals < 0 {
+			decimals = 0
+		}
 	}
 
 	zeros := strings.Repeat("0", decimals)
